@@ -524,6 +524,17 @@ func runCorr(sh *shard, c *corrCase, expSnaps []string, sum *sumT) {
 			caseHasCancel = true
 		}
 	}
+	if info.EmptyIn {
+		// requests without a payload cannot carry the case token: their scripts are matched in arrival order per
+		// (server, method), so every request of this case must have reached its server before the case can end
+		for nid, s := range scripts {
+			select {
+			case <-s.Entered:
+			case <-time.After(5 * time.Second):
+				fail("C06", fmt.Sprintf("handler entered at node %d", nid), "not entered within 5s", "")
+			}
+		}
+	}
 	var watches []<-chan struct{}
 	for _, l := range []int{-1, 0, 1, 2, 3, 5} {
 		watches = append(watches, obj.raw.Watch(l))
